@@ -15,6 +15,7 @@ from harness import collide as C
 from harness import protocol as P
 from harness import scenarios as S
 from harness import forge as F
+from harness.continuous import ContinuousWorld
 from harness.world import State, ep_snapshot, HarnessError
 
 ck = Check('C03', 'model_checking')
@@ -29,12 +30,12 @@ if not ck.quick:
     SCEN.append(dict(start='est', config='match', budget=dict(trig=2, fault=0)))
 
 
-def build(sc):
+def build(sc, cls=None):
     confs = C.CONFIGS[sc['config']]()
     if sc['start'] == 'est':
-        w = S.established(confs)
+        w = S.established(confs, cls=cls)
     else:
-        w = S.new_world(confs)
+        w = S.new_world(confs, cls=cls)
     w.sent_log = []
     if sc['start'] == 'est':
         pass
@@ -276,6 +277,71 @@ def sm_collect(world):
     return ()
 
 
+def continuous_injections(sc, history, names, cover, outcomes):
+    """the same state and the same alphabet with the daemons' event loops never left (harness/continuous.py): the state is
+    reached by replaying the history on a fresh continuous world, and the injections follow each other on that one world -
+    each must leave it as it found it, so no copy is needed.  After a violation the world is rebuilt."""
+    def fresh():
+        w = build(sc, cls=ContinuousWorld)
+        try:
+            P.replay_events(w, [e for e in history])
+        except HarnessError:
+            w.close()
+            return None
+        return w
+    out = []
+    w = fresh()
+    if w is None:
+        cover['continuous:history-does-not-replay'] += 1
+        return out
+    try:
+        for name in names:
+            n_sas = len(w.endpoints[name].controller.ike_sas)
+            for i in range(n_sas):
+                ep = w.endpoints[name]
+                sa = ep.controller.ike_sas[i]
+                if sa.peer_crypto is None:
+                    continue
+                role, st, spi = 'initiator' if sa.is_initiator else 'responder', sa.state.name, sa.my_spi.hex()
+                peer_addr = str(sa.peer_addr)
+                for label, data in list(injections(w, ep, sa)):
+                    src = peer_addr
+                    if label.startswith('from-stranger:'):
+                        src = '10.9.9.9' if ':' not in peer_addr else '2001:db8:9::9'
+                    ep = w.endpoints[name]
+                    before = snapshot(ep, w.clock)
+                    hist_len = len(w.history)
+                    w.step(('inject', name, data, src))
+                    del w.history[hist_len:]
+                    after = snapshot(w.endpoints[name], w.clock)
+                    emitted = list(w.step_emitted)
+                    for d in emitted:
+                        if d in w.net:
+                            w.net.remove(d)
+                    cover['continuous:injections'] += 1
+                    problems = []
+                    if after != before:
+                        problems.append(('state-changed', 'endpoint state changed: %s' % diff_fields(before, after)))
+                    if emitted:
+                        problems.append(('reply-elicited', 'elicited %d datagram(s): %s' % (len(emitted), emitted[0])))
+                    outcomes['continuous:' + (effect_class(problems) or 'inert')] += 1
+                    for kind, msg in problems:
+                        out.append(dict(monitor='M-quiet', signature='%s:%s:%s:%s:loop-never-left' % (kind, label, role, st),
+                                        message='%s (IKE_SA %s of %s in %s, event loop never left): injected %s -> %s' % (
+                                            kind, spi, name, st, label, msg),
+                                        history=list(history), detail=dict(inject=dict(ep=name, sa_index=i, label=label, data=data,
+                                                                                       continuous=True))))
+                    if problems:
+                        w.close()
+                        w = fresh()
+                        if w is None or len(w.endpoints[name].controller.ike_sas) != n_sas:
+                            return out
+    finally:
+        if w is not None:
+            w.close()
+    return out
+
+
 def inject_state(job):
     """stage 2 (one work unit): rebuild the state from its history and run the whole injection alphabet against the
     endpoints named in the job"""
@@ -302,6 +368,7 @@ def inject_state(job):
                         message='%s (IKE_SA %s of %s in %s): injected %s -> %s' % (
                             kind, sa.my_spi.hex(), name, sa.state.name, label, msg),
                         history=list(history), detail=dict(inject=dict(ep=name, sa_index=i, label=label, data=data))))
+    out += continuous_injections(sc, history, names, cover, outcomes)
     seen = set()
     uniq = []
     for v in out:
@@ -396,7 +463,14 @@ def replay(path):
         w = build(sc)
         P.replay_events(w, [tuple(e) for e in doc['history']])
         inj = doc['detail']['inject']
-        res = check_one(w, inj['ep'], inj['sa_index'], inj['label'], inj['data'])
+        if inj.get('continuous'):
+            # the injections of this state follow each other on one world whose event loops are never left: all of them up
+            # to the reported one are replayed
+            res = [v['message'] for v in continuous_injections(sc, [tuple(e) for e in doc['history']], [inj['ep']],
+                                                                collections.Counter(), collections.Counter())
+                   if v['detail']['inject']['label'] == inj['label']]
+        else:
+            res = check_one(w, inj['ep'], inj['sa_index'], inj['label'], inj['data'])
     for r in res:
         print('reproduced:', r)
     print('REPLAY %s' % ('reproduces a violation' if res else 'does not reproduce'))
